@@ -279,14 +279,14 @@ func classifyUnmarshal(c UCase, st, vt reflect.Type, o *uOutcome) string {
 		start, end int
 		repl       string
 	}
-	for _, cls := range []string{clsF5, clsF7, clsF19, clsF21, clsF12} {
+	for _, cls := range []string{clsF5, clsF26, clsF7, clsF19, clsF21, clsF12} {
 		var edits []edit
 		for _, s := range sites {
 			if siteShape(s) != cls {
 				continue
 			}
 			switch cls {
-			case clsF5:
+			case clsF5, clsF26:
 				edits = append(edits, edit{s.val.Start, s.val.End, `"\"x\""`})
 			case clsF21:
 				edits = append(edits, edit{s.val.Start, s.val.End, `"nul"`})
